@@ -24,10 +24,11 @@ import (
 // successful async-commit / 1PC prewrites the way a TiKV with a small max_ts does: with the request's own min_commit_ts.
 type txTiKV struct {
 	tikv.Client
-	mu     sync.Mutex
-	async  int
-	onepc  int
-	reqMin uint64
+	mu      sync.Mutex
+	async   int
+	onepc   int
+	reqMin  uint64
+	lastMin uint64 // min_commit_ts of the last prewrite request of any kind
 }
 
 func (c *txTiKV) SendRequest(ctx context.Context, addr string, req *tikvrpc.Request, timeout time.Duration) (*tikvrpc.Response, error) {
@@ -35,6 +36,11 @@ func (c *txTiKV) SendRequest(ctx context.Context, addr string, req *tikvrpc.Requ
 	var reqMin uint64
 	if req.Type == tikvrpc.CmdPrewrite {
 		useAsync, onePC, reqMin = req.Prewrite().GetUseAsyncCommit(), req.Prewrite().GetTryOnePc(), req.Prewrite().GetMinCommitTs()
+	}
+	if req.Type == tikvrpc.CmdPrewrite {
+		c.mu.Lock()
+		c.lastMin = reqMin
+		c.mu.Unlock()
 	}
 	resp, err := c.Client.SendRequest(ctx, addr, req, timeout)
 	if err != nil || resp == nil || !(useAsync || onePC) {
